@@ -125,6 +125,15 @@ def run(tier, seed, rep):
             Q2["seq"].append(rnd.choice("PEK"))
         elif r_ < 0.5 and Q2["internal"]:
             Q2["internal"][0]["mods"] = [{"v": "i:77", "m": 1}]
+        elif r_ < 0.75:
+            # another spelling of the same modified residues: the modifications of a residue listed in reverse order,
+            # an integral shift written as a float
+            for e_ in Q2["internal"]:
+                if len(e_["mods"]) > 1 and rnd.random() < 0.7:
+                    e_["mods"] = e_["mods"][::-1]
+                for m_ in e_["mods"]:
+                    if m_["v"].startswith("i:") and rnd.random() < 0.4:
+                        m_["v"] = "f:" + m_["v"][2:] + ".0"
         o, r2 = call(lambda: pp.is_subsequence(anngen.build(pp, Q2), anngen.build(pp, T2), order=False))
         evs.append({"tid": f"m{j}.{len(evs)}", "k": "c16", "op": "unordered", "T": T2, "Q": Q2, "out": o,
                     "res": bool(r2) if o == "ret" else False})
